@@ -12,4 +12,5 @@ void registerAll()
     reg_fs();
     reg_proxy();
     reg_life();
+    reg_lifed();
 }
